@@ -37,6 +37,9 @@ InvRunEndsClean == RunEndsClean(Cur)
 InvNoCleanupBeforeEnd == NoCleanupBeforeEnd(Cur)
 InvResultsOnlyAfterJoin == ResultsOnlyAfterJoin(Cur)
 InvProcConsistent == ProcConsistent(Cur)
+InvNoObjectNoResources == NoObjectNoResources(Cur)
+\* the design decision behind RunEndsClean: only a signal that ends EVERY program may be used
+InvCleanupSignalEndsAll == \A t \in ToolSet : StoppedBy(t, CleanupSignal)
 InvResultsOnlyOfSuccess == ResultsOnlyOfSuccess(Cur)
 InvCleanupAtMostOnce == cleanups <= 1
 \* a refused call has no side effect on anything
